@@ -270,6 +270,18 @@ class Evaluator:
             v = b.apply(b.kernel_name(f, 0), [xf.t, d.t])
             return Cell(self.nulls(cells), "f64", v.t)
         if f == "Pow":
+            # a literal small non-negative integer exponent is a product (the DP variance squares with pow(x, 2)); anything else
+            # goes to the uninterpreted libm powf
+            ea = args[1]
+            if self.mode == "math" and ea.get("e") == "Value" and ea["v"]["t"] in ("Integer", "Float"):
+                try:
+                    ev_ = float(int(ea["v"]["v"])) if ea["v"]["t"] == "Integer" else (kern.bits_to_float(ea["v"]["v"]) if isinstance(ea["v"]["v"], str) else float(ea["v"]["v"]))
+                except Exception:
+                    ev_ = None
+                if ev_ is not None and ev_ == int(ev_) and 0 <= int(ev_) <= 4:
+                    x = b.promote(cells[0], "f64")
+                    t = "1.0" if int(ev_) == 0 else ("(* %s)" % " ".join([x.t] * int(ev_)) if int(ev_) > 1 else x.t)
+                    return Cell(x.n, "f64", t)
             x, y = [b.promote(c, "f64") for c in cells]
             v = b.apply(b.kernel_name(f, 0), [x.t, y.t])
             return Cell(self.nulls(cells), "f64", v.t)
